@@ -1165,6 +1165,10 @@ func runC12(r *hx.Result, rng *hx.Rng, thorough bool, replay string) error {
 			}
 		}
 	}
+	// constraints added / changed while other sessions are active (c12_ddl.go)
+	if err := runC12DDL(r, rng.Fork(), thorough); err != nil {
+		return err
+	}
 	for _, k := range []string{"unit.auto", "unit.explicit", "unit.implicit-multi", "unit.aborted", "unit.committed", "mode.interleaved", "mode.goroutines", "interleaved.commit.ok",
 		"mode.race-scheduled", "mode.race-goroutines", "race.commit.ok", "race.commit.read-conflict", "race.tuple.hot", "race.conflict.unique.detected-at-commit"} {
 		if r.Distribution[k] == 0 {
